@@ -39,6 +39,8 @@ def explore(ctx):
         for what in ("disconnect", "force", "cancel"):
             for pos in range(1, 40, 1 if tier != "quick" else 2):
                 lines.append(G.env_sweep("e%s%d" % (what[0], pos), pos, what))
+        for k in range({"quick": 20, "thorough": 300, "search": 50}[tier]):
+            lines.append(G.shutdown_then_command(rng, "z%d" % k))
         ops = ["dialok", "dialfail", "finalize", "close"]
         depth = {"quick": 5, "thorough": 7, "search": 6}[tier]
         k = 0
